@@ -15,7 +15,8 @@ REPO = os.environ.get('VERIF_REPO', '/repo')
 PKG = os.path.join(REPO, 'ai_edge_quantizer')
 LOCK_PATH = os.path.join(VERIF, 'obligations.lock.json')
 KF_PATH = os.path.join(VERIF, 'known_findings.json')
-OUT = os.path.join(VERIF, 'out')          # replay files written at run time (git-ignored)
+OUT = os.environ.get('VERIF_OUT_DIR') or os.path.join(VERIF, 'out')          # replay files written at run time (git-ignored)
+EVIDENCE_DIR = os.environ.get('VERIF_EVIDENCE_DIR') or os.path.join(VERIF, 'evidence')     # (overridden only by checks/seedtest.sh, so that runs on a changed scratch tree do not replace the evidence of the real tree)
 
 # ----------------------------------------------------------------------------------------------- source extraction
 _src_cache = {}
@@ -172,8 +173,8 @@ class Report:
                                'bounded stand-ins are listed separately and never counted', **self.extra)
         ev = dict(property_id=self.prop, tier=self.tier, seed=self.seed, level=self.level, coverage=cov, assumptions=self.assumptions,
                   wall_s=round(wall, 2), violations=len(self.violations))
-        os.makedirs(os.path.join(VERIF, 'evidence'), exist_ok=True)
-        with open(os.path.join(VERIF, 'evidence', f'{self.prop}.json'), 'w') as f: json.dump(ev, f, indent=1, default=str)
+        os.makedirs(EVIDENCE_DIR, exist_ok=True)
+        with open(os.path.join(EVIDENCE_DIR, f'{self.prop}.json'), 'w') as f: json.dump(ev, f, indent=1, default=str)
         print(f'[{self.prop}] tier={self.tier} functions={len(self.fns)} obligations={n} discharged={d} '
               f'bounded={len(self.bounded)} canaries={cov["canaries_killed"]}/{len(self.canaries)} covers={self.covers} wall={wall:.1f}s')
         for l in self.kf_lines: print(l)
@@ -210,12 +211,59 @@ def stub_package():
     for name, path in (('ai_edge_quantizer', PKG),):
         m = types.ModuleType(name); m.__path__ = [path]; m.__verif_stub__ = True; sys.modules[name] = m
 
-def run_pool(fn, n, procs=None):
-    """fork-based pool over indices 0..n-1 (z3 objects live in the parent's memory image; only verdict tuples travel back)."""
+def run_pool(fn, n, procs=None, hard_s=None, on_timeout=None, stop_when=None):
+    """fork-based pool over indices 0..n-1 (z3 objects live in the parent's memory image; only verdict tuples travel back).
+    With `hard_s`, every task runs in its OWN forked process under a hard wall-clock limit: a solver call that ignores its soft timeout is killed
+    and the task's result is on_timeout(i) (an 'undecided' verdict, never a violation), so one stuck query cannot hang a whole check.
+    With `stop_when` (hard_s mode only) the pool stops as soon as a result satisfies the predicate; unfinished tasks yield None."""
     import multiprocessing as mp
     procs = procs or min(16, os.cpu_count() or 4)
     if n == 0: return []
-    if procs <= 1 or n == 1: return [fn(i) for i in range(n)]
-    ctx = mp.get_context('fork')
-    with ctx.Pool(min(procs, n)) as pool:
-        return pool.map(fn, range(n), chunksize=1)
+    if hard_s is None:
+        if procs <= 1 or n == 1: return [fn(i) for i in range(n)]
+        ctx = mp.get_context('fork')
+        with ctx.Pool(min(procs, n)) as pool:
+            return pool.map(fn, range(n), chunksize=1)
+    ctx = mp.get_context('fork'); res = [None] * n; live = {}; wid = 0; stopped = False
+    chunk = max(1, min(8, n // (procs * 4)))                       # a forked worker handles a few tasks (fork of the large parent image is not free)
+    queue = [list(range(k, min(n, k + chunk))) for k in range(0, n, chunk)]
+    def child(tasks, conn):
+        for i in tasks:
+            try: conn.send((i, fn(i)))
+            except BaseException as e: conn.send((i, ('__error__', repr(e))))
+        conn.close()
+    while queue or live:
+        while queue and len(live) < procs:
+            tasks = queue.pop(0); a, b_ = ctx.Pipe(duplex=False); pr = ctx.Process(target=child, args=(tasks, b_)); pr.start(); b_.close()
+            live[wid] = [pr, a, time.time(), list(tasks)]; wid += 1
+        done = []; progressed = False
+        for w, st in live.items():
+            pr, a, t0, tasks = st
+            try:
+                while tasks and a.poll(0):
+                    i, r = a.recv(); res[i] = r; tasks.remove(i); st[2] = time.time(); progressed = True
+                    if stop_when is not None and stop_when(r): stopped = True
+            except EOFError: pass
+            if not tasks: pr.join(5); done.append(w)
+            elif not pr.is_alive() and not a.poll(0):
+                res[tasks[0]] = ('__error__', f'worker exited with code {pr.exitcode}'); rest = tasks[1:]
+                if rest: queue.append(rest)
+                done.append(w)
+            elif time.time() - st[2] > hard_s:
+                pr.kill(); pr.join(5); res[tasks[0]] = ('__timeout__', hard_s); rest = tasks[1:]
+                if rest: queue.append(rest)
+                done.append(w)
+        for w in done: live.pop(w)[1].close()
+        if stopped:
+            for w, st in live.items(): st[0].kill(); st[0].join(5); st[1].close()
+            live.clear(); queue[:] = []
+        if not done and not progressed: time.sleep(0.02)
+    out = []
+    for i, r in enumerate(res):
+        if r is None and stopped: out.append(None); continue
+        if isinstance(r, tuple) and len(r) == 2 and r[0] == '__timeout__':
+            if on_timeout is None: raise RuntimeError(f'task {i} exceeded the hard limit of {hard_s}s')
+            r = on_timeout(i)
+        elif isinstance(r, tuple) and len(r) == 2 and r[0] == '__error__': raise RuntimeError(f'task {i} failed in its worker: {r[1]}')
+        out.append(r)
+    return out
